@@ -994,6 +994,25 @@ func (f *frame) callContract(fc *FuncContract, callee *ssa.Function, args []*Val
 		}
 		f.assume(t)
 	}
+	// `fresh R` (assumed contracts only): a non-nil result R is a new object: it existed neither at
+	// function entry nor before any open loop
+	if len(fc.Fresh) > 0 && (fc.Extern || fc.Trusted != "") && f.c != nil && !f.pure {
+		for _, name := range fc.Fresh {
+			for i, rn := range fc.Results {
+				if strings.TrimSpace(name) != rn.Name || i >= len(results) || results[i].Sort != SRef {
+					continue
+				}
+				ref := results[i]
+				f.e.Defs.noteFunc("preexisting", []*Sort{SRef}, SBool)
+				conj := []*Term{Not(App("preexisting", SBool, ref))}
+				for _, p := range f.openLoopPreds() {
+					f.e.Defs.noteFunc(p, []*Sort{SRef}, SBool)
+					conj = append(conj, Not(App(p, SBool, ref)))
+				}
+				f.assume(Implies(Not(Eq(ref, f.e.nilRef())), And(conj...)))
+			}
+		}
+	}
 	for _, b := range bridges {
 		if err := f.liftClosure(fc, b, pos); err != nil {
 			return nil, err
